@@ -74,6 +74,21 @@ pub fn scenario(mode: &str, pool_size: u32, progs: &[&str], with_cancel: bool) -
     scenario_cached(mode, pool_size, progs, with_cancel, 0)
 }
 
+/// The replica cannot be logged in to (refuses the connection / closes it / answers the startup packet with
+/// FATAL): the failed attempts must leave nothing behind in the registries.
+pub fn scenario_replica_down(mode: &str, pool_size: u32, progs: &[&str], how: &str) -> Scenario {
+    let mut sc = scenario_cached(mode, pool_size, progs, false, 0);
+    match how {
+        "refuse" => sc.servers[1].accept = crate::mockpg::Accept::Refuse,
+        "close" => sc.servers[1].startup = crate::mockpg::StartupMode::CloseAfterAccept,
+        "fatal" => sc.servers[1].startup = crate::mockpg::StartupMode::ErrorAtStartup,
+        _ => panic!("how"),
+    }
+    sc.name = format!("{} replica={}", sc.name, how);
+    sc.meta["replica_down"] = serde_json::json!(how);
+    sc
+}
+
 pub fn scenario_cached(mode: &str, pool_size: u32, progs: &[&str], with_cancel: bool, cache: usize) -> Scenario {
     let mut pool = PoolCfg::simple("db", mode, pool_size, 1, 1);
     if cache > 0 {
@@ -117,6 +132,10 @@ pub fn oracle(sc: &Scenario, out: &Outcome) -> Vec<Violation> {
     let progs: Vec<String> = sc.meta["progs"].as_array().unwrap().iter().map(|x| x.as_str().unwrap().to_string()).collect();
     let session = sc.meta["mode"].as_str().unwrap() == "session";
     let ctx = format!("{}:{}", if session { "session" } else { "transaction" }, progs.join("+"));
+    let ctx = match sc.meta.get("replica_down").and_then(|x| x.as_str()) {
+        Some(h) => format!("{}:replica-{}", ctx, h),
+        None => ctx,
+    };
     let mut push = |vs: &mut Vec<Violation>, o: &str, what: String, detail: String| {
         let sig = format!("{}:{}:{}", o, what, ctx);
         if !vs.iter().any(|x| x.sig == sig) {
@@ -362,6 +381,12 @@ pub fn build(tier: &str) -> SimCheck {
             scenarios.push(scenario_cached(mode, pool_size, &["ext", "txn"], false, 8));
             scenarios.push(scenario(mode, pool_size, &["txn", "drop-in-txn", "autos"], true));
             scenarios.push(scenario(mode, pool_size, &["stay", "txn", "stay"], false));
+            for how in ["refuse", "close", "fatal"] {
+                scenarios.push(scenario_replica_down(mode, pool_size, &["autos", "txn"], how));
+                if thorough {
+                    scenarios.push(scenario_replica_down(mode, pool_size, &["autos", "drop-in-txn", "stay"], how));
+                }
+            }
         }
     }
     SimCheck {
@@ -369,7 +394,7 @@ pub fn build(tier: &str) -> SimCheck {
         oracle: Box::new(oracle),
         bound: if thorough { 3 } else { 2 },
         limits: Limits { max_wall_s: if thorough { 2400.0 } else { 55.0 }, ..Default::default() },
-        rule: "scenario = pool mode x pool_size {1,2} (1 primary + 1 replica) x 1-3 client programs out of 14 (transactions over both protocols, multi-statement, failed, COPY in/out, bad password, unknown pool, hard drop while idle / in transaction, FIN and Terminate in transaction, staying connected) with an optional cancel-request connection; all schedules with <= bound deviations; after EVERY event the pooler's registries (what SHOW POOLS/CLIENTS/SERVERS/STATS print) are compared with a ledger kept from the scripted clients' and the reference backend's logs; the SHOW commands themselves are run at the end".into(),
+        rule: "scenario = pool mode x pool_size {1,2} (1 primary + 1 replica) x 1-3 client programs out of 14 (transactions over both protocols, multi-statement, failed, COPY in/out, bad password, unknown pool, hard drop while idle / in transaction, FIN and Terminate in transaction, staying connected) with an optional cancel-request connection; also with a replica that cannot be logged in to (refuses / closes / FATAL at startup); all schedules with <= bound deviations; after EVERY event the pooler's registries (what SHOW POOLS/CLIENTS/SERVERS/STATS print) are compared with a ledger kept from the scripted clients' and the reference backend's logs; the SHOW commands themselves are run at the end".into(),
         assumptions: vec!["the registries are read through the same public functions the SHOW commands use (get_client_stats, get_server_stats, PoolStats::construct_pool_lookup, AddressStats)".into()],
     }
 }
